@@ -630,11 +630,14 @@ class MessageManager(ClientLike):
                 dropped.append(module)
 
         for module, err in failed_writes:
-            if module.conn not in self.modules:
-                continue
-            self.remove_module(module)
-            self.logger.error(f"Connection Error on write to {module!s} - {err!s}")
-            print("x", end="", flush=True)
+            # (a notice caused by an earlier entry of this list may already have removed
+            # this module; its failed delivery of this message is still reported)
+            if module.conn in self.modules:
+                self.remove_module(module)
+                self.logger.error(
+                    f"Connection Error on write to {module!s} - {err!s}"
+                )
+                print("x", end="", flush=True)
             # this could result in infinite recursion,
             # this is prevented by send_failed_message returning if
             # failed message type is failed_message.
@@ -673,11 +676,14 @@ class MessageManager(ClientLike):
                 failed_writes.append((module, err))
 
         for module, err in failed_writes:
-            if module.conn not in self.modules:
-                continue
-            self.remove_module(module)
-            self.logger.error(f"Connection Error on write to {module!s} - {err!s}")
-            print("x", end="", flush=True)
+            # (a notice caused by an earlier entry of this list may already have removed
+            # this module; its failed delivery of this message is still reported)
+            if module.conn in self.modules:
+                self.remove_module(module)
+                self.logger.error(
+                    f"Connection Error on write to {module!s} - {err!s}"
+                )
+                print("x", end="", flush=True)
             # this could result in infinite recursion,
             # this is prevented by send_failed_message returning if
             # failed message type is failed_message.
